@@ -5,6 +5,7 @@ import TucanProofs.Lemmas.V3000File
 import TucanProofs.Lemmas.GraphFromMoleculeKeys
 import TucanProofs.Lemmas.Files
 import TucanProofs.Lemmas.StarExample
+import TucanProofs.Lemmas.FileRead
 /-!
 # C07 — the V3000 reader decodes exactly the molecule the file states
 
@@ -182,4 +183,17 @@ example : okEq (keywordValues (cs "CHG") [cs "EXACHG=1", cs "CHG=-1"]) [-1] = tr
     okEq (keywordValues (cs "CHG") [cs "CHG=-1", cs "EXACHG=1"]) [-1] = true ∧
     okEq (keywordValues (cs "MASS") [cs "CHG=-1", cs "RAD=2"]) [] = true := by
   refine ⟨?_, ?_, ?_⟩ <;> decide +kernel
+/-- **`graph_from_file` reads what `graph_from_molfile_text` reads.**  The file is opened in text mode, so Python's
+universal-newlines translation rewrites `\r\n` and a lone `\r` to `\n` before the text is split into lines;
+`splitlines` treats exactly those as one terminator, so for EVERY decoded content the translated text splits into
+the same lines and the graph (or the exception) is the same.  Every theorem about `graphFromMolfileText` is thereby
+a theorem about files on disk; not modelled: the filesystem, the decoding of the bytes, the suffix check. -/
+theorem C07_graph_from_file (t : Str) :
+    splitLines (universalNewlines t) = splitLines t ∧ graphFromFileContent t = graphFromMolfileText t :=
+  ⟨splitLines_universalNewlines t, graphFromFileContent_eq t⟩
+
+/-- non-vacuity: the translation does change the text -/
+example : universalNewlines ['a', '\r', '\n', 'b', '\r', 'c', '\n'] = ['a', '\n', 'b', '\n', 'c', '\n'] :=
+  universalNewlines_example
+
 end Tucan
